@@ -7,6 +7,9 @@ package c16
 
 import (
 	"math"
+	"os"
+	"path/filepath"
+	"strings"
 
 	"verif/lib/harness"
 	"verif/lib/m16"
@@ -44,6 +47,8 @@ var witnesses = []witness{
 		Steps: []step{{Op: "set", Key: "Get", Val: jv(m16.JStr("x"))}}}},
 	{id: m16.KNamedKey, hist: &histCase{Cont: contSpec{Kind: "map", T: "map[KStr]int", Init: m16.MapOf([]string{"a"}, []m16.GV{m16.NumI(1)})},
 		Steps: []step{{Op: "get", Key: "a"}}}},
+	{id: m16.KStoreI64, hist: &histCase{Cont: contSpec{Kind: "slice", T: "[]int", Init: m16.List(m16.NumI(0), m16.Num("9007199254740993"))},
+		Steps: []step{{Op: "shift"}}}},
 	{id: m16.KStoreFrac, hist: &histCase{Cont: contSpec{Kind: "map", T: "map[string]int", Init: m16.MapOf(nil, nil)},
 		Steps: []step{{Op: "set", Key: "c", Val: jv(m16.JNum(-1.5, "lit"))}}}},
 	{id: m16.KStoreBound, hist: &histCase{Cont: contSpec{Kind: "map", T: "map[string]int", Init: m16.MapOf(nil, nil)},
@@ -85,11 +90,24 @@ func init() {
 	}
 }
 
+// hasWitness: the finding is still listed as open (a "finding:" line in props/c16/FINDINGS.txt);
+// repaired findings ("fixed:" lines) no longer excuse anything, in a witness evaluation or elsewhere.
 func hasWitness(id string) bool {
-	for _, w := range witnesses {
-		if w.id == id {
-			return true
+	if openFindings == nil {
+		openFindings = map[string]bool{}
+		b, _ := os.ReadFile(filepath.Join(harness.Root(), "props", "c16", "FINDINGS.txt"))
+		for _, line := range strings.Split(string(b), "\n") {
+			if !strings.HasPrefix(line, "finding:") {
+				continue
+			}
+			for _, f := range strings.Fields(line) {
+				if strings.HasPrefix(f, "id=") {
+					openFindings[strings.TrimPrefix(f, "id=")] = true
+				}
+			}
 		}
 	}
-	return false
+	return openFindings[id]
 }
+
+var openFindings map[string]bool
